@@ -76,17 +76,31 @@ Proof.
   apply (fold_max_from _ m N).
 Qed.
 
+(** numpy's minimum / maximum (NaN propagates) agree with python's min / max away from NaN *)
+Lemma np_min_py a b : nn a -> nn b -> np_min a b = py_min a b.
+Proof. unfold nn, np_min. intros Ha Hb. destruct a, b; try reflexivity; congruence. Qed.
+Lemma np_max_py a b : nn a -> nn b -> np_max a b = py_max a b.
+Proof. unfold nn, np_max. intros Ha Hb. destruct a, b; try reflexivity; congruence. Qed.
+Lemma xmin_nn l : nn (xmin_list l).
+Proof. unfold xmin_list. apply (fold_min_from PInf l nn_pinf). Qed.
+Lemma xmax_nn l : nn (xmax_list l).
+Proof. unfold xmax_list. apply (fold_max_from NInf l nn_ninf). Qed.
+
 (** * the statistics of concatenated data are the sum of the statistics (any chunking) *)
 Theorem moments_app p q : moments (p ++ q) = stats_add (moments p) (moments q).
 Proof.
-  unfold moments, stats_add. cbn [st_sum st_sum2 st_min st_max st_weight]. rewrite !map_app, !sumq_app, xmin_app, xmax_app. reflexivity.
+  unfold moments, stats_add. cbn [st_sum st_sum2 st_min st_max st_weight].
+  rewrite (np_min_py _ _ (xmin_nn _) (xmin_nn _)), (np_max_py _ _ (xmax_nn _) (xmax_nn _)).
+  rewrite !map_app, !sumq_app, xmin_app, xmax_app. reflexivity.
 Qed.
 
 (** one fill = adding the statistics of a single (value, weight) pair *)
 Theorem fill_is_singleton s v w : nn (st_min s) -> nn (st_max s) ->
   fill_stats s v w = stats_add s (moments [(v, w)]).
 Proof.
-  intros H1 H2. unfold fill_stats, stats_add, moments, xmin_list, xmax_list. cbn [map fst snd fold_left sumq fold_right st_sum st_sum2 st_min st_max st_weight].
+  intros H1 H2. unfold fill_stats, stats_add, moments. cbn [st_sum st_sum2 st_min st_max st_weight].
+  rewrite (np_min_py _ _ H1 (xmin_nn _)), (np_max_py _ _ H2 (xmax_nn _)).
+  unfold xmin_list, xmax_list. cbn [map fst snd fold_left sumq fold_right].
   rewrite (py_min_pinf (Fin v)) by apply nn_fin. rewrite (py_max_ninf (Fin v)) by apply nn_fin.
   f_equal; f_equal; f_equal; ring.
 Qed.
